@@ -49,124 +49,7 @@ func runC12(c *core.Ctx) {
 		c.Floor("uses of decoded lengths in models", n, 2) // (4 today; 2 when the two reads share a helper)
 	})
 
-	c.Clause("D2", func() {
-		n := 0
-		for _, name := range []string{models + ".scanKey", models + ".less"} {
-			f := c.Fn(name)
-			info := f.Info()
-			// unique definitions of local identifiers
-			defs := map[types.Object][]ast.Expr{}
-			ast.Inspect(f.Body, func(nd ast.Node) bool {
-				as, ok := nd.(*ast.AssignStmt)
-				if !ok {
-					return true
-				}
-				for i, l := range as.Lhs {
-					id, ok := l.(*ast.Ident)
-					if !ok || id.Name == "_" {
-						continue
-					}
-					o := info.ObjectOf(id)
-					if len(as.Rhs) == len(as.Lhs) {
-						defs[o] = append(defs[o], as.Rhs[i])
-					} else if len(as.Rhs) == 1 {
-						defs[o] = append(defs[o], as.Rhs[0])
-					}
-				}
-				return true
-			})
-			fromScanTo := func(x ast.Expr) bool {
-				id, ok := ast.Unparen(x).(*ast.Ident)
-				if !ok {
-					return false
-				}
-				ds := defs[info.ObjectOf(id)]
-				if len(ds) != 1 {
-					return false
-				}
-				ce, ok := ast.Unparen(ds[0]).(*ast.CallExpr)
-				if !ok || len(ce.Args) != 3 {
-					return false
-				}
-				fn, ok := core.Callee(info, ce).(*types.Func)
-				if !ok || core.FuncName(fn) != models+".scanTo" {
-					return false
-				}
-				b, isC := byteConst(info, ce.Args[2])
-				return isC && b == '='
-			}
-			k := 0
-			ast.Inspect(f.Body, func(nd ast.Node) bool {
-				ce, ok := nd.(*ast.CallExpr)
-				if !ok || len(ce.Args) != 2 {
-					return true
-				}
-				fn, ok := core.Callee(info, ce).(*types.Func)
-				if !ok || fn.Pkg() == nil || fn.Pkg().Path() != "bytes" || fn.Name() != "Compare" && fn.Name() != "Equal" {
-					return true
-				}
-				k++
-				n++
-				good := fromScanTo(ce.Args[0]) && fromScanTo(ce.Args[1])
-				c.Check("tag-keys-compared-escape-aware", fmt.Sprintf("%s/%s#%d", f.Name, fn.Name(), k), c.P.Pos(ce.Pos()), good,
-					"this comparison orders (or de-duplicates) tags by something other than the keys the escape-aware scanner scanTo(.., '=') extracts: the sorted fast path, the sort and the duplicate check then disagree for keys containing an escaped '=', and the series key depends on the order the tags were written in")
-				return true
-			})
-		}
-		c.Floor("tag key comparisons in the parser", n, 3)
-		// no raw search for a delimiter
-		raw, delim := 0, 0
-		for _, f := range c.P.FuncsIn(models) {
-			if f.Body == nil {
-				continue
-			}
-			info := f.Info()
-			ast.Inspect(f.Body, func(nd ast.Node) bool {
-				ce, ok := nd.(*ast.CallExpr)
-				if !ok || len(ce.Args) < 2 {
-					return true
-				}
-				fn, ok := core.Callee(info, ce).(*types.Func)
-				if !ok || fn.Pkg() == nil || fn.Pkg().Path() != "bytes" && fn.Pkg().Path() != "strings" {
-					return true
-				}
-				switch fn.Name() {
-				case "IndexByte", "LastIndexByte", "IndexRune", "Index", "LastIndex", "Split", "SplitN", "Cut", "Contains", "ContainsRune", "IndexAny", "Fields":
-				default:
-					return true
-				}
-				if _, ok := info.TypeOf(ce.Args[0]).Underlying().(*types.Slice); !ok {
-					return true // searches inside string constants / strings are not key scanning
-				}
-				b, isC := byteConst(info, ce.Args[1])
-				if !isC {
-					if tv := info.Types[ce.Args[1]]; tv.Value != nil && tv.Value.Kind() == constant.String {
-						s := constant.StringVal(tv.Value)
-						if len(s) == 1 {
-							b, isC = s[0], true
-						}
-					} else if cl, ok := ast.Unparen(ce.Args[1]).(*ast.CallExpr); ok && len(cl.Args) == 1 {
-						// []byte("=")
-						if tv := info.Types[cl.Args[0]]; tv.Value != nil && tv.Value.Kind() == constant.String && len(constant.StringVal(tv.Value)) == 1 {
-							b, isC = constant.StringVal(tv.Value)[0], true
-						}
-					}
-				}
-				if !isC {
-					return true
-				}
-				raw++
-				if b == '=' || b == ',' || b == ' ' {
-					delim++
-					c.Check("no-raw-delimiter-search", fmt.Sprintf("%s/%s(%q)", f.Name, fn.Name(), string(b)), c.P.Pos(ce.Pos()), false,
-						"a line-protocol delimiter is located with a raw byte search, which does not honour backslash escapes; escaped delimiters inside names are then treated as separators")
-				}
-				return true
-			})
-		}
-		c.Floor("raw constant-byte searches recognised (matcher liveness)", raw, 3)
-		c.Check("no-raw-delimiter-search", "models/total", "", delim == 0, fmt.Sprintf("%d raw delimiter searches", delim))
-	})
+	c.Clause("D2", func() { runTagKeyComparisons(c) })
 
 	c.Clause("D3", func() {
 		f := c.Fn(models + ".NewPointFromBytes")
@@ -673,4 +556,126 @@ func runC12(c *core.Ctx) {
 		})
 		c.Check("malformed-line-rejected", f.Name+"/failures-surface", f.PosStr(), surf, "recorded parse failures are not turned into the call's error")
 	})
+}
+
+// runTagKeyComparisons: the line-protocol scanner orders and de-duplicates tags by their escape-aware keys only (shared by C12 and C08).
+func runTagKeyComparisons(c *core.Ctx) {
+	const models = "models"
+	n := 0
+	for _, name := range []string{models + ".scanKey", models + ".less"} {
+		f := c.Fn(name)
+		info := f.Info()
+		// unique definitions of local identifiers
+		defs := map[types.Object][]ast.Expr{}
+		ast.Inspect(f.Body, func(nd ast.Node) bool {
+			as, ok := nd.(*ast.AssignStmt)
+			if !ok {
+				return true
+			}
+			for i, l := range as.Lhs {
+				id, ok := l.(*ast.Ident)
+				if !ok || id.Name == "_" {
+					continue
+				}
+				o := info.ObjectOf(id)
+				if len(as.Rhs) == len(as.Lhs) {
+					defs[o] = append(defs[o], as.Rhs[i])
+				} else if len(as.Rhs) == 1 {
+					defs[o] = append(defs[o], as.Rhs[0])
+				}
+			}
+			return true
+		})
+		fromScanTo := func(x ast.Expr) bool {
+			id, ok := ast.Unparen(x).(*ast.Ident)
+			if !ok {
+				return false
+			}
+			ds := defs[info.ObjectOf(id)]
+			if len(ds) != 1 {
+				return false
+			}
+			ce, ok := ast.Unparen(ds[0]).(*ast.CallExpr)
+			if !ok || len(ce.Args) != 3 {
+				return false
+			}
+			fn, ok := core.Callee(info, ce).(*types.Func)
+			if !ok || core.FuncName(fn) != models+".scanTo" {
+				return false
+			}
+			b, isC := byteConst(info, ce.Args[2])
+			return isC && b == '='
+		}
+		k := 0
+		ast.Inspect(f.Body, func(nd ast.Node) bool {
+			ce, ok := nd.(*ast.CallExpr)
+			if !ok || len(ce.Args) != 2 {
+				return true
+			}
+			fn, ok := core.Callee(info, ce).(*types.Func)
+			if !ok || fn.Pkg() == nil || fn.Pkg().Path() != "bytes" || fn.Name() != "Compare" && fn.Name() != "Equal" {
+				return true
+			}
+			k++
+			n++
+			good := fromScanTo(ce.Args[0]) && fromScanTo(ce.Args[1])
+			c.Check("tag-keys-compared-escape-aware", fmt.Sprintf("%s/%s#%d", f.Name, fn.Name(), k), c.P.Pos(ce.Pos()), good,
+				"this comparison orders (or de-duplicates) tags by something other than the keys the escape-aware scanner scanTo(.., '=') extracts: the sorted fast path, the sort and the duplicate check then disagree for keys containing an escaped '=', and the series key depends on the order the tags were written in")
+			return true
+		})
+	}
+	c.Floor("tag key comparisons in the parser", n, 3)
+	// no raw search for a delimiter
+	raw, delim := 0, 0
+	for _, f := range c.P.FuncsIn(models) {
+		if f.Body == nil {
+			continue
+		}
+		info := f.Info()
+		ast.Inspect(f.Body, func(nd ast.Node) bool {
+			ce, ok := nd.(*ast.CallExpr)
+			if !ok || len(ce.Args) < 2 {
+				return true
+			}
+			fn, ok := core.Callee(info, ce).(*types.Func)
+			if !ok || fn.Pkg() == nil || fn.Pkg().Path() != "bytes" && fn.Pkg().Path() != "strings" {
+				return true
+			}
+			switch fn.Name() {
+			case "IndexByte", "LastIndexByte", "IndexRune", "Index", "LastIndex", "Split", "SplitN", "Cut", "Contains", "ContainsRune", "IndexAny", "Fields":
+			default:
+				return true
+			}
+			if _, ok := info.TypeOf(ce.Args[0]).Underlying().(*types.Slice); !ok {
+				return true // searches inside string constants / strings are not key scanning
+			}
+			b, isC := byteConst(info, ce.Args[1])
+			if !isC {
+				if tv := info.Types[ce.Args[1]]; tv.Value != nil && tv.Value.Kind() == constant.String {
+					s := constant.StringVal(tv.Value)
+					if len(s) == 1 {
+						b, isC = s[0], true
+					}
+				} else if cl, ok := ast.Unparen(ce.Args[1]).(*ast.CallExpr); ok && len(cl.Args) == 1 {
+					// []byte("=")
+					if tv := info.Types[cl.Args[0]]; tv.Value != nil && tv.Value.Kind() == constant.String && len(constant.StringVal(tv.Value)) == 1 {
+						b, isC = constant.StringVal(tv.Value)[0], true
+					}
+				}
+			}
+			if !isC {
+				return true
+			}
+			raw++
+			if b == '=' || b == ',' || b == ' ' {
+				delim++
+				c.Check("no-raw-delimiter-search", fmt.Sprintf("%s/%s(%q)", f.Name, fn.Name(), string(b)), c.P.Pos(ce.Pos()), false,
+					"a line-protocol delimiter is located with a raw byte search, which does not honour backslash escapes; escaped delimiters inside names are then treated as separators")
+			}
+			return true
+		})
+	}
+	c.Floor("raw constant-byte searches recognised (matcher liveness)", raw, 3)
+	c.Check("no-raw-delimiter-search", "models/total", "", delim == 0, fmt.Sprintf("%d raw delimiter searches", delim))
+
 }
